@@ -717,6 +717,13 @@ class Element(object):
         """
         self.children.append(obj)
 
+    def _attach(self, parent, traversal_parent):
+        # used by the constructors that can still refuse their arguments after Element.__init__: the new element is
+        # attached as their last step, so that a refusal leaves the parent untouched
+        self.parent = parent
+        if parent is None:
+            self.traversal_parent = traversal_parent
+
     def is_named(self, name):
         name = name.upper()
         return name in (self.name, self.long_name)
@@ -1125,13 +1132,11 @@ class CanBeVaries(Element):
 
         if name is not None and _valid_child_name(name, 'VARIES'):
             # Set name to None because with a VARIES name the Element would raise an Exception
-            Element.__init__(self, None, parent, reference, version,
-                             validation_level, traversal_parent)
+            Element.__init__(self, None, None, reference, version, validation_level, None)
             self.name = name.upper()
         else:
             try:
-                Element.__init__(self, name, parent, reference, version,
-                                 validation_level, traversal_parent)
+                Element.__init__(self, name, None, reference, version, validation_level, None)
             except ChildNotFound:
                 raise InvalidName(self.classname, self.name)
 
@@ -1151,6 +1156,8 @@ class CanBeVaries(Element):
         else:
             self.datatype = datatype
             self.name = self.datatype
+
+        self._attach(parent, traversal_parent)
 
     def _find_structure(self, reference=None):
         if self.name is not None or reference is not None:
@@ -1204,13 +1211,14 @@ class SubComponent(CanBeVaries):
         if not name and datatype is None:
             raise OperationNotAllowed("Cannot instantiate a SubComponent with name and datatype both empty")
 
-        CanBeVaries.__init__(self, name, datatype, parent, reference,
-                             version, validation_level, traversal_parent)
+        CanBeVaries.__init__(self, name, datatype, None, reference,
+                             version, validation_level, None)
 
         if _valid_child_name(name, 'VARIES') and self.datatype is None:
             self.datatype = 'ST'
 
         self.value = value
+        self._attach(parent, traversal_parent)
 
     def add(self, obj):
         raise OperationNotAllowed("Cannot add children to a SubComponent")
@@ -1434,8 +1442,7 @@ class Field(SupportComplexDataType):
             reference = ('leaf', None, 'varies', None, None, -1)
 
         try:
-            Element.__init__(self, name, parent, reference, version,
-                             validation_level, traversal_parent)
+            Element.__init__(self, name, None, reference, version, validation_level, None)
         except InvalidName:
             if _valid_z_field_name(name):
                 datatype = datatype or 'ST'
@@ -1446,8 +1453,7 @@ class Field(SupportComplexDataType):
                         version = get_default_version()
                     dt_struct = load_reference(datatype, "Datatypes_Structs", version)
                     reference = ('sequence', dt_struct, datatype, None, None, -1)
-                Element.__init__(self, name, parent, reference, version,
-                                 validation_level, traversal_parent)
+                Element.__init__(self, name, None, reference, version, validation_level, None)
             else:
                 raise
 
@@ -1459,6 +1465,8 @@ class Field(SupportComplexDataType):
             self.datatype = datatype
         elif self.name is None:  # if it is unknown and no datatype has been given
             self.datatype = None
+
+        self._attach(parent, traversal_parent)
 
     def add_component(self, name):
         """
